@@ -98,6 +98,45 @@ def bodies(shape):
     return specs
 
 
+class FactorySet:
+    """all delegating methods are produced by ONE def statement (a factory): they share a single code object and differ
+    only in their closure and annotations"""
+
+    SRC = (
+        "from ovld import recurse, call_next\n"
+        "def mk_next(m):\n"
+        "    def h(x):\n"
+        "        LOG.append((m, (x,), {}, None))\n"
+        "        return call_next(x)\n"
+        "    return h\n"
+        "def mk_ret(m):\n"
+        "    def h(x):\n"
+        "        LOG.append((m, (x,), {}, None))\n"
+        "        return ('ret', m)\n"
+        "    return h\n"
+    )
+    FN = "<symx-c07-factory>"
+
+    def __init__(self, shape):
+        import linecache
+
+        linecache.cache[self.FN] = (len(self.SRC), None, self.SRC.splitlines(True), self.FN)
+        self.code = compile(self.SRC, self.FN, "exec")
+        self.shape = shape
+
+    def instantiate(self, W, extra=None):
+        ns = {"LOG": [], "__name__": "symx_c07_factory"}
+        exec(self.code, ns)
+        hs = []
+        n = self.shape["n"]
+        for m, md in enumerate(self.shape["methods"]):
+            h = (ns["mk_next"] if md["kind"] == "next" else ns["mk_ret"])(m)
+            t = md["pos"][0]
+            h.__annotations__ = {"x": W.K[t] if t != n else object}
+            hs.append(h)
+        return hs, ns["LOG"], ns
+
+
 def make_run(W, shape, known_active=None):
     from ovld import Ovld
 
@@ -106,10 +145,10 @@ def make_run(W, shape, known_active=None):
     n = shape["n"]
     methods = shape["methods"]
     M = len(methods)
-    key = repr((methods, shape.get("selfarg")))
+    key = repr((methods, shape.get("selfarg"), shape.get("factory")))
     ms = _MS.get(key)
     if ms is None:
-        ms = _MS[key] = MethodSet(bodies(shape))
+        ms = _MS[key] = FactorySet(shape) if shape.get("factory") else MethodSet(bodies(shape))
     mtypes = [tuple(md["pos"]) for md in methods]
     npos = len(mtypes[0])
     regs = [sorted({mt[k] for mt in mtypes}) for k in range(npos)]
@@ -289,13 +328,17 @@ def gen_shapes(tier, seed):
     for mt in itertools.product(range(n + 1), repeat=3):
         for ks in itertools.product(["ret", "next", "fnext"], repeat=3):
             fam_self.append(dict(n=n, selfarg=True, methods=[dict(pos=[t], kind=k) for t, k in zip(mt, ks)], args=[0]))
-    total = len(shapes) + len(fam_fwd) + len(fam2) + len(fam4) + len(fam_self)
-    for f in (shapes, fam_fwd, fam2, fam4, fam_self):
+    fam_fact = []
+    for mt in itertools.product(range(n + 1), repeat=3):
+        for ks in itertools.product(["ret", "next"], repeat=3):
+            fam_fact.append(dict(n=n, factory=True, methods=[dict(pos=[t], kind=k) for t, k in zip(mt, ks)], args=[0]))
+    total = len(shapes) + len(fam_fwd) + len(fam2) + len(fam4) + len(fam_self) + len(fam_fact)
+    for f in (shapes, fam_fwd, fam2, fam4, fam_self, fam_fact):
         rng.shuffle(f)
     if tier == "quick":
-        out = shapes[:260] + fam_fwd[:120] + fam2[:100] + fam4[:50] + fam_self[:80]
+        out = shapes[:230] + fam_fwd[:110] + fam2[:90] + fam4[:40] + fam_self[:70] + fam_fact[:70]
     else:
-        out = shapes + fam_fwd + fam2 + fam4 + fam_self
+        out = shapes + fam_fwd + fam2 + fam4 + fam_self + fam_fact
     return out, total, True
 
 
@@ -318,7 +361,7 @@ def main(tier, seed):
         PID, tier, seed, t0, results,
         bounds=dict(classes="3 (4 in the four-method family)", methods="3-4", positions="1-2",
                     delegation="each method: returns | call_next(same args) | f.next(same args) | call_next(instance of another class)",
-                    receivers="plain functions; methods with self bound through the descriptor",
+                    receivers="plain functions; methods with self bound through the descriptor; methods produced by one factory (shared code object)",
                     priorities="unbounded integers (symbolic)", hierarchy="every partial order (symbolic)"),
         rule="one state = one (method set with delegation pattern) x class of (hierarchy, priorities); non-trivial = chain of >= 2 methods",
         stubs=["SymMeta classes", "SymInt priorities"],
